@@ -111,6 +111,7 @@ func c13Occurrence(c *vrep.Ctx) {
 	single := c13Values(alpha, maxTok)
 	small := c13Values(alpha, pairTok)
 	ctxs := append([]c13Value{{nil}}, c13Values(ctxAlpha, maxCtx)...)
+	ctxShort := append([]c13Value{{nil}}, c13Values(ctxAlpha, 1)...)
 	norms := []struct {
 		name string
 		fn   []NormalizeFunc
@@ -173,8 +174,12 @@ func c13Occurrence(c *vrep.Ctx) {
 			name2 = []string{"A0", "Z9"}[r.Choose(2, "near-duplicate's name")]
 			two = true
 		}
-		pre := ctxs[r.Choose(len(ctxs), "pre")]
-		post := ctxs[r.Choose(len(ctxs), "post")]
+		cx := ctxs
+		if fam == 4 || fam == 5 || fam == 7 {
+			cx = ctxShort // long values: contexts of at most one token
+		}
+		pre := cx[r.Choose(len(cx), "pre")]
+		post := cx[r.Choose(len(cx), "post")]
 		ni := r.Choose(len(norms), "normalizers")
 		ti := r.Choose(len(ts), "threshold")
 		if r.Scout() {
